@@ -58,6 +58,12 @@ def jobs(tier):
         add(0, 2, 1)
         for op in (1, 2, 3, 4):
             add(op, 1, 1); add(op, 2, 1); add(op, 3, 1, timeout=300)
+    for op in range(5):
+        for ord_ in range(4):
+            for signs in ([(1, 1, 1, 1), (1, 0, 1, 0)] if tier == 'quick' else list(itertools.product((1, 0), repeat=4))):
+              for sh in range(3):
+                js.append(Job('%s/pair/ord%d/%s/shared%d' % (OPS[op], ord_, ''.join(map(str, signs)), sh), 'C13_bool.cpp', 'h_pair', SAT_UNITS, 16, params=[op, ord_] + list(signs) + [sh], timeout=120,
+                              desc='%s(x,y) and %s(z,y) sharing y (the variable with index rank %d), argument orders %d, signs %s, first one requested again; models symbolic' % (OPS[op], OPS[op], sh, ord_, signs), bounds={'args': 2}))
     for op in (3, 4):
         for n in ((4, 5) if tier == 'quick' else (4, 5, 6, 7)):
             js.append(Job('%s/grid/n%d' % (OPS[op], n), 'C13_bool.cpp', 'h_grid', SAT_UNITS, 30, params=[op, n], timeout=240, mem=8,
